@@ -131,7 +131,15 @@ func cliGenGated(r *Rng, v6 bool) (cliMScenario, []string) {
 		add(cliMEv{kind: "arr", ok: true, xid: 1, tag: 0})
 	}
 	tags := []string{"gated-matcher", "buffer-full-loop-parked", fmt.Sprintf("cap=%d", sc.cap)}
-	switch r.Intn(3) {
+	switch r.Intn(4) {
+	case 3:
+		// a datagram for ANOTHER transaction reaches the socket while the loop is parked (so it
+		// stays in the socket queue); the call with that id is made afterwards
+		tags = append(tags, "datagram-queued-before-its-call")
+		b.xid = 2
+		sc.callers[1] = b
+		add(cliMEv{kind: "arr", ok: true, xid: 2, tag: 1})
+		add(cliMEv{kind: "call", i: 1}, cliMEv{kind: "rel", i: 0, k: 100})
 	case 0:
 		tags = append(tags, "deadline-then-concurrent-register")
 		add(cliMEv{kind: "tick"})
@@ -246,7 +254,10 @@ func cliCheckC10(sc cliMScenario, r cliMResult) (string, string) {
 			if !mc.matchNil && in.tag != 1 {
 				return "matcher", fmt.Sprintf("call %d returned datagram #%d, which its matcher rejects", i, idx)
 			}
-			if in.group < c.callGroup || in.group > c.retGroup {
+			if in.group < c.callGroup {
+				return "stale-datagram", fmt.Sprintf("call %d (made in group %d) returned datagram #%d, which reached the socket before the call was made (group %d)", i, c.callGroup, idx, in.group)
+			}
+			if in.group > c.retGroup {
 				return "not-in-flight", fmt.Sprintf("call %d (groups %d..%d) returned datagram #%d injected in group %d", i, c.callGroup, c.retGroup, idx, in.group)
 			}
 			// first such: only decidable from outside when nothing races and
